@@ -12,7 +12,7 @@
    b08c6f9). *)
 From Coq Require Import SpecFloat.
 Require Import Base Value Float PrintOptions Printer ParseOptions Utf8 Reader Scan Num NumberOps Parser.
-Require Import TextProofs RoundtripProofs AcceptedProofs.
+Require Import TextProofs RoundtripProofs AcceptedProofs ValidTextProofs.
 
 Theorem C13_accepted_in_class : forall alpha fast std_parse k inp v, k <> SrcStr ->
   from_trait default_ro alpha fast std_parse k inp = POk v ->
@@ -29,6 +29,18 @@ Theorem C13_parse_print_parse_partial : forall alpha fast std_parse ryu k k' inp
   from_trait default_ro alpha fast std_parse k' (bytes_events (print0 ryu v)) = POk v.
 Proof. exact accepted_roundtrip. Qed.
 Print Assumptions C13_parse_print_parse_partial.
+
+(* the first parse from a &str: a str holds a well-formed text, on which the str
+   parse is the slice parse (C06_str_slice_agree_on_text) *)
+Theorem C13_str_first_source_partial : forall alpha fast std_parse ryu k' W v, utf8_valid W = true ->
+  from_trait default_ro alpha fast std_parse SrcStr (bytes_events W) = POk v -> float_free v ->
+  from_trait default_ro alpha fast std_parse k' (bytes_events (print0 ryu v)) = POk v.
+Proof.
+  intros alpha fast std_parse ryu k' W v HW E Hf.
+  rewrite (proj1 (valid_text_agree W HW default_ro alpha fast std_parse)) in E.
+  apply (accepted_roundtrip alpha fast std_parse ryu SrcSlice k' (bytes_events W) v); [discriminate|exact E|exact Hf].
+Qed.
+Print Assumptions C13_str_first_source_partial.
 
 (* parse . print is the identity on the class, so print . parse . print = print *)
 Theorem C13_fixed_point_partial : forall ryu alpha fast std_parse k v,
